@@ -57,6 +57,7 @@ type state struct {
 	imgCap   int
 	cutDen   int
 	enumerate bool
+	powerloss bool
 }
 
 func payload(counter uint64, size, fill int) []byte {
@@ -150,6 +151,20 @@ func (s *state) hook(f *simfs.FS, ev *simfs.Event) error {
 			tears = []int64{int64(r.Fault.Choose(int(ev.Len), "tear"))}
 		}
 	}
+	if s.powerloss {
+		// power-loss model: only what was fsynced survives; no torn variants (nothing in flight is kept)
+		if len(s.images) < s.imgCap {
+			dst := filepath.Join(r.Dir, fmt.Sprintf("img%d", len(s.images)))
+			if err := f.PowerLossImage(dst, ev); err != nil {
+				r.Violate("machinery", "image", "cannot build power-loss image: %v", err)
+				return nil
+			}
+			s.images = append(s.images, image{dir: dst, ev: fmt.Sprintf("%s [power loss]", ev), acked: s.acked, head: s.head, inflight: s.inflight, minHead: s.purged, headHi: s.head + s.inflightAdv, kind: "powerloss-" + ev.Op})
+			r.Probe("fault_powerloss_m2")
+			r.MixSig("plcut:"+ev.Op, uint64(ev.N))
+		}
+		return nil
+	}
 	for _, tear := range tears {
 		if len(s.images) >= s.imgCap {
 			break
@@ -212,6 +227,11 @@ func exec(r *hx.Run, prog []json.RawMessage) {
 	s.maxSize = s.segSize * int64(cfg.Range(2, 12, "maxsegs"))
 	s.total = &durablequeue.SharedCount{}
 	s.enumerate = r.CfgBool("enumerate")
+	s.powerloss = r.CfgBool("powerloss")
+	if s.powerloss {
+		fs.Shadow = simfs.NewShadow(nil)
+		fs.Shadow.DataOnly = !r.CfgBool("plnamespace")
+	}
 	s.imgCap = r.CfgInt("imgcap", 12)
 	s.cutDen = r.CfgInt("cutden", 12)
 	if r.CfgBool("nocrash") {
@@ -479,60 +499,49 @@ func (s *state) drain(q *durablequeue.Queue, what string) [][]byte {
 	return nil
 }
 
-// checkSeq: got must be entries[i:j] with lo <= i <= head and acked <= j <= hi.
+// checkSeq: the delivered entries must be known entries in strictly increasing append order (redelivery
+// of entries already advanced past is allowed: at-least-once), and every entry in [head, acked) —
+// appended successfully and not advanced past — must be among them. lo is only used for a probe.
 func (s *state) checkSeq(got [][]byte, lo, head, acked, hi int, sig, ev string) {
 	r := s.r
-	if len(got) == 0 {
-		if head < acked {
-			r.Violate("C26:lost-entry", sig+":empty", "after [%s] the queue delivers nothing but entries %d..%d were appended successfully and not advanced past", ev, head, acked-1)
-		}
-		return
-	}
-	// locate first delivered entry
-	start := -1
-	for i := 0; i < hi && i < len(s.entries); i++ {
-		if bytes.Equal(s.entries[i], got[0]) {
-			start = i
-			break
-		}
-	}
-	if start < 0 {
-		r.Violate("C26:unknown-entry", sig+":first", "after [%s] the queue delivered %d bytes (%x…) that were never appended as an entry", ev, len(got[0]), head8(got[0]))
-		return
-	}
-	if start > head {
-		r.Violate("C26:lost-entry", sig+":gap-at-head", "after [%s] delivery starts at entry index %d but index %d was not advanced past", ev, start, head)
-		return
-	}
-	if start < lo {
-		r.Probe("probe_replayed_purged")
-	}
-	if start < head {
-		r.Probe("probe_redelivery_after_crash")
-	}
+	prev := -1
+	seen := map[int]bool{}
 	for k, b := range got {
-		i := start + k
-		if i >= hi || i >= len(s.entries) {
-			r.Violate("C26:unknown-entry", sig+":extra", "after [%s] the queue delivered an extra entry (%x…) beyond the %d appended", ev, head8(b), hi)
-			return
+		idx := -1
+		for i := prev + 1; i < hi && i < len(s.entries); i++ {
+			if bytes.Equal(s.entries[i], b) {
+				idx = i
+				break
+			}
 		}
-		if !bytes.Equal(b, s.entries[i]) {
+		if idx < 0 {
 			known := false
-			for _, e := range s.entries {
-				if bytes.Equal(e, b) {
+			for i := 0; i < len(s.entries) && i < hi; i++ {
+				if bytes.Equal(s.entries[i], b) {
 					known = true
 				}
 			}
 			if known {
-				r.Violate("C26:order", sig+":order", "after [%s] delivery position %d holds %x…, expected %s", ev, k, head8(b), s.describe(i))
+				r.Violate("C26:order", sig+":order", "after [%s] delivery position %d holds %x…, an entry appended before (or equal to) the one delivered just before it", ev, k, head8(b))
 			} else {
 				r.Violate("C26:unknown-entry", sig+":garbage", "after [%s] the queue delivered %d bytes (%x…) that were never appended as an entry", ev, len(b), head8(b))
 			}
 			return
 		}
+		if idx < head {
+			r.Probe("probe_redelivery_after_crash")
+		}
+		if idx < lo {
+			r.Probe("probe_replayed_purged")
+		}
+		seen[idx] = true
+		prev = idx
 	}
-	if start+len(got) < acked {
-		r.Violate("C26:lost-entry", sig+":tail", "after [%s] delivery ends at entry index %d but %d entries had been appended successfully", ev, start+len(got)-1, acked)
+	for i := head; i < acked; i++ {
+		if !seen[i] {
+			r.Violate("C26:lost-entry", sig+":missing", "after [%s] entry index %d (%s) was appended successfully and not advanced past (head %d, %d appended) but is not delivered", ev, i, s.describe(i), head, acked)
+			return
+		}
 	}
 }
 
